@@ -63,6 +63,8 @@ def gen_cases(ctx):
                             xs = [float(rng.randrange(-9, 9))]
                         if len(xs) == 1 and rng.random() < 0.3:
                             row.append((1, xs))
+                        elif rd > 0 and rng.random() < 0.4:
+                            row.append((3, xs))       # refill through sc_stats_reset (+ accumulate, possibly nothing)
                         else:
                             row.append((0, xs))
                     rdata.append(row)
